@@ -1,5 +1,6 @@
 import H264.RbspInit
 import H264.DecodeNal
+import H264.DecodeNalSpec
 /-! # C02 — RBSP extraction removes exactly the emulation-prevention bytes, for any chunking
 
 Model: `Rbsp.BR` mirrors `rbsp::ByteReader` at call level (`try_fill_buf_slow` scanner, `fill_buf`, `consume`, `read`)
@@ -73,14 +74,25 @@ theorem scanner_is_window_spec (xs : List UInt8) : unescFrom .start xs = unesc x
 /-- decoding the escaped form of *any* payload returns that payload -/
 theorem escape_roundtrip (p : List UInt8) : unesc (escape p) = (p, true) := unesc_escape p
 
-/-- one-shot decoder, loop part: whatever the drain loop of `decode_nal` has collected is a prefix of the view; it
-reports `InvalidData` only for an invalid remainder and never `UnexpectedEof` -/
-theorem oneshot_drain_partial (fuel : Nat) (r : BR) (hinv : Inv r) (acc : List UInt8) :
-    match drainLoop fuel r acc with
-    | (out, none) => ∃ rest, out ++ rest = acc ++ (view r).1
-    | (out, some .invalidData) => (view r).2 = false ∧ ∃ rest, out ++ rest = acc ++ (view r).1
-    | (_, some .wouldBlock) => r.inner.complete = false
-    | (_, some .eof) => False := drainLoop_spec fuel r hinv acc
+/-- **one-shot decoder**: `decode_nal` yields exactly the declarative un-escaping of everything after the header byte;
+it reports `InvalidData` exactly when that is invalid; and it borrows its input exactly when nothing had to be removed
+(also for the empty and the header-only NAL) -/
+theorem oneshot_decoder (nal : List UInt8) :
+    decodeNal nal =
+      if (unesc (nal.drop 1)).2 then .ok (decide ((unesc (nal.drop 1)).1 = nal.drop 1), (unesc (nal.drop 1)).1)
+      else .error .invalidData := decodeNal_eq nal
+
+/-- so the one-shot decoder and every run-to-the-end of the streaming reader agree, whatever the chunking -/
+theorem oneshot_agrees_with_stream (nal : List UInt8) (chunks : List (List UInt8)) (complete : Bool) (maxFill : Nat)
+    (hflat : chunks.flatten = nal) (b : Bool) (out : List UInt8) (h : decodeNal nal = .ok (b, out)) :
+    view (initReader chunks complete 1 maxFill) = (out, true) := by
+  rw [initReader_view, initState_unesc, hflat]
+  rw [decodeNal_eq] at h
+  split at h
+  · rename_i hv
+    simp only [Except.ok.injEq, Prod.mk.injEq] at h
+    exact Prod.ext h.2 hv
+  · cases h
 
 /-- non-vacuity: a NAL cut inside its escape sequence, header skipped -/
 example : (unesc ([0x65, 0x01, 0x00, 0x00, 0x03, 0x01, 0x00, 0x00, 0x03].drop 1)) = ([0x01, 0x00, 0x00, 0x01, 0x00, 0x00], true) := by
